@@ -33,8 +33,12 @@ def main(argv=None):
     deep_u = [SR.random_super_input(rng, rng.randint(5, 6), rng.randint(2, 4), rng.randint(2, 3), False) for _ in range(10 if q else 300)]
     deep_o = [SR.random_super_input(rng, rng.randint(4, 5), rng.randint(2, 4), rng.randint(3, 4), True, rootsyn_p=0.1, consistent_p=0.9) for _ in range(8 if q else 200)]
     deep_p = [D.random_deep_input(rng, rng.randint(4, 5), rng.randint(4, 6)) for _ in range(30 if q else 600)]
+    sim_u = SR.simulated_inputs(rng, 30 if q else 300, 6, 4, 3, False)
+    sim_o = SR.simulated_inputs(rng, 20 if q else 200, 5, 4, 3, True)
     pol = ["any", "all"]
     sections = [
+        ("simulated inputs: base_uspfs, superdtl", [(d, SR.runs_for(["base_uspfs", "superdtl"], pol, FLAGS, "dhs", coherent=False, inf_too=False)) for d in sim_u], False),
+        ("simulated inputs: base_spfs, ext_spfs", [(d, SR.runs_for(["base_spfs", "ext_spfs"], ["any"], FLAGS, "dhs", coherent=False, inf_too=False)) for d in sim_o], False),
         ("deeper inputs: unordered 5-6 leaves (dup, hgt, sloss symbolic)", [(d, SR.runs_for(["base_uspfs", "superdtl"], ["any"] if q else pol, FLAGS, "dhs", coherent=False)) for d in deep_u], False),
         ("deeper inputs: ordered 4-5 leaves x 3-4 families (dup, hgt, sloss symbolic)", [(d, SR.runs_for(["base_spfs", "ext_spfs"], ["any"], FLAGS, "dhs", coherent=False)) for d in deep_o], False),
         ("deeper inputs: plain 4-6 leaves on deep species trees (dup, hgt symbolic)", [(d, SR.runs_for(["lca", "thl", "exh"], ["any"] if q else pol, FLAGS, "dhs", coherent=False)) for d in deep_p], False),
